@@ -298,7 +298,9 @@ Proof.
            assert (Ex : psum ps (fun p => if lands (rset r) p q0 then rowv h' r0 p j else 0) ==
                         psum ps (fun p => if lands (rset r) p q0 then rowv h r0 p j else 0)).
            { apply psum_ext. intros p _. rewrite Hrow0. reflexivity. }
-           rewrite Ex. Show. admit.
+           rewrite Ex.
+           assert (Ea : rowv h r0 a j = nthq (cellv h c) j) by (unfold rowv; rewrite Ra; reflexivity).
+           rewrite Ea. destruct (phase_eqb q0 q); lra.
         -- intros p [->|Hp] Hn j.
            ++ congruence.
            ++ rewrite <- Hrow0. apply E; auto.
